@@ -1406,12 +1406,16 @@ impl Core {
 		// Step 2: Signal write stall controller - wake any stalled writers
 		self.write_stall.signal_shutdown();
 		log::debug!("Write stall shutdown signal sent");
+		#[cfg(surrealkv_verif)]
+		crate::verif::gate("close.signalled", &[]);
 
 		// Step 2b: let the commits that are already in flight finish, so that
 		// everything acknowledged is in the memtables and the commit log before
 		// they are flushed / closed below.
 		self.commit_pipeline.drain().await;
 		log::debug!("Commit pipeline drained");
+		#[cfg(surrealkv_verif)]
+		crate::verif::gate("close.drained", &[]);
 
 		// Step 3: Wait for and stop all background tasks
 		let task_manager = self.task_manager.lock().unwrap().take();
@@ -1419,6 +1423,8 @@ impl Core {
 			log::debug!("Stopping background task manager...");
 			task_manager.stop().await;
 			log::debug!("Background task manager stopped");
+			#[cfg(surrealkv_verif)]
+			crate::verif::gate("close.joined", &[]);
 		}
 
 		// Close the VLog if present
